@@ -10,8 +10,8 @@ VERIF = os.path.dirname(os.path.dirname(os.path.abspath(__file__)))
 REPO = os.environ.get("VERIF_REPO", "/repo")
 SPEC = os.path.join(VERIF, "spec")
 HARNESS = os.path.join(VERIF, "harness")
-EVID = os.path.join(VERIF, "evidence")
-REPLAYS = os.path.join(VERIF, "replays")
+EVID = os.environ.get("VERIF_EVID", os.path.join(VERIF, "evidence"))
+REPLAYS = os.environ.get("VERIF_REPLAYS", os.path.join(VERIF, "replays"))
 NCPU = os.cpu_count() or 4
 
 GOENV = dict(os.environ, GOFLAGS="-mod=mod", GOPROXY="off", GOSUMDB="off",
@@ -159,12 +159,26 @@ def ensure_gosum():
         shutil.copy(os.path.join(REPO, "go.sum"), dst)
 
 
+def harness_dir(scratch):
+    """The harness module replaces the six btcwallet modules by /repo/...; when
+    VERIF_REPO points elsewhere (a scratch worktree used for mutation testing)
+    a copy of the harness with rewritten replace directives is built instead."""
+    if os.path.abspath(REPO) == "/repo":
+        return HARNESS
+    dst = scratch.path("harness")
+    if not os.path.isdir(dst):
+        shutil.copytree(HARNESS, dst)
+        gm = open(os.path.join(dst, "go.mod")).read().replace("=> /repo", "=> " + os.path.abspath(REPO))
+        open(os.path.join(dst, "go.mod"), "w").write(gm)
+    return dst
+
+
 def build_driver(scratch, name, tags="verif"):
     ensure_gosum()
     out = scratch.path("bin-" + name)
     cmd = ["go", "build", "-tags", tags, "-o", out, "./cmd/" + name]
     t0 = time.time()
-    p = subprocess.run(cmd, cwd=HARNESS, env=GOENV, stdout=subprocess.PIPE, stderr=subprocess.STDOUT, text=True)
+    p = subprocess.run(cmd, cwd=harness_dir(scratch), env=GOENV, stdout=subprocess.PIPE, stderr=subprocess.STDOUT, text=True)
     if p.returncode != 0:
         raise Broken("go build %s failed:\n%s" % (name, p.stdout[-4000:]))
     log("built %s in %.1fs" % (name, time.time() - t0))
